@@ -89,6 +89,7 @@ class Sched:
             self.back.release()
 
     def run(self, programs, schedule):
+        new_epoch()
         threads = [threading.Thread(target=self.worker, args=(i, p), daemon=True) for i, p in enumerate(programs)]
         for t in threads:
             t.start()
@@ -271,6 +272,34 @@ def programs(n_yields):
         dict(name='unregistered-elsewhere', family='kept-error', target=lambda: {'total': 3}, spec=lambda: chain(T) + (('total', [T]),)),
         dict(name='unregistered-elsewhere-with-default', family='kept-error', target=lambda: {'n': [7, 8]},
              spec=lambda: chain(T) + (Coalesce(('n', T[0], [T]), default='not iterable'),)),
+        # ONE reduction object whose subspec is LAZY (an Iter with a yielding callable), so the yield points lie inside the folding
+        # loop, while the accumulator is alive: Merge with its default op, Sum / Fold over start values that += changes in place
+        # (list, Counter), Flatten - each call folds into an accumulator of its own
+        dict(name='lazy-merge-a', family='lazy-merge', target=lambda: [{'a': 1}, {'b': 2}, {'a': 3}], spec=lambda: _LAZY_RED['merge'], fresh=lambda: Merge(Iter(Y))),
+        dict(name='lazy-merge-b', family='lazy-merge', target=lambda: [{'x': 9}, {'y': 8}], spec=lambda: _LAZY_RED['merge'], fresh=lambda: Merge(Iter(Y))),
+        dict(name='lazy-sum-list-a', family='lazy-sum-list', target=lambda: [[1], [2, 3]], spec=lambda: _LAZY_RED['sum-list'], fresh=lambda: Sum(Iter(Y), init=list)),
+        dict(name='lazy-sum-list-b', family='lazy-sum-list', target=lambda: [['p'], ['q'], ['r']], spec=lambda: _LAZY_RED['sum-list'], fresh=lambda: Sum(Iter(Y), init=list)),
+        dict(name='lazy-sum-counter-a', family='lazy-sum-counter', target=lambda: ['ab', 'a'], spec=lambda: _LAZY_RED['sum-counter'],
+             fresh=lambda: Sum(Iter((Y, _collections.Counter)), init=_collections.Counter)),
+        dict(name='lazy-sum-counter-b', family='lazy-sum-counter', target=lambda: ['zz', 'y', 'z'], spec=lambda: _LAZY_RED['sum-counter'],
+             fresh=lambda: Sum(Iter((Y, _collections.Counter)), init=_collections.Counter)),
+        dict(name='lazy-flatten', family='lazy-flatten', target=lambda: [[1, 2], [3]], spec=lambda: _LAZY_RED['flatten'], fresh=lambda: Flatten(Iter(Y))),
+        dict(name='lazy-fold-list', family='lazy-fold', target=lambda: [5, 6, 7], spec=lambda: _LAZY_RED['fold'],
+             fresh=lambda: Fold(Iter(Y), init=list, op=lambda acc, x: (acc.append(x), acc)[1])),
+        # the same kinds of object, NEW for every schedule: the first evaluations of a spec object overlap
+        dict(name='first-use-merge-a', family='first-use-merge', target=lambda: [{'a': 1}, {'b': 2}, {'a': 3}], spec=lambda: _per_epoch('merge', lambda: Merge(Iter(Y)))),
+        dict(name='first-use-merge-b', family='first-use-merge', target=lambda: [{'x': 9}, {'y': 8}], spec=lambda: _per_epoch('merge', lambda: Merge(Iter(Y)))),
+        dict(name='first-use-merge-named-op', family='first-use-merge-od', target=lambda: [{'a': 1}, {'b': 2}],
+             spec=lambda: _per_epoch('merge-od', lambda: (Merge(Iter(Y), init=_collections.OrderedDict, op='update'), dict))),
+        dict(name='first-use-merge-named-op-b', family='first-use-merge-od', target=lambda: [{'c': 3}, {'a': 4}, {'d': 5}],
+             spec=lambda: _per_epoch('merge-od', lambda: (Merge(Iter(Y), init=_collections.OrderedDict, op='update'), dict))),
+        dict(name='first-use-sum-list', target=lambda: [[1], [2, 3]], spec=lambda: _per_epoch('sum-list', lambda: Sum(Iter(Y), init=list))),
+        dict(name='first-use-group', target=lambda: list(range(max(n_yields, 2))), spec=lambda: _per_epoch('group', lambda: Group({(lambda x: Y(x) % 2): [T]}))),
+        dict(name='first-use-unique', target=lambda: [i % 2 for i in range(max(n_yields, 2))], spec=lambda: _per_epoch('unique', lambda: Iter(Y).unique().all())),
+        dict(name='first-use-first', family='first-use-first', target=lambda: {'lim': 1, 'items': list(range(6))},
+             spec=lambda: _per_epoch('first', lambda: (S(lim=T['lim']), 'items', Iter().first(key=(Y, Call(lambda a, b: a > b, args=(T, S.lim))), default='none')))),
+        dict(name='first-use-first-b', family='first-use-first', target=lambda: {'lim': 4, 'items': list(range(6))},
+             spec=lambda: _per_epoch('first', lambda: (S(lim=T['lim']), 'items', Iter().first(key=(Y, Call(lambda a, b: a > b, args=(T, S.lim))), default='none')))),
         # container literals in ARGUMENT position whose construction is interrupted by a yield point; the spec objects are
         # shared between threads (a memo keyed by id(spec) that outlives one call would hand one call another call's value)
         dict(name='shared-arg-default', target=lambda: {'v': threading.get_ident()}, spec=lambda: _shared_arg('default', n_yields)),
@@ -282,7 +311,30 @@ def programs(n_yields):
 
 _SHARED_ARG = {}
 _SHARED_FIRST = {}
+# spec objects shared by the calls of ONE schedule and built anew for every schedule (and for every run alone): their very first
+# evaluations overlap - state that a constructor prepares "for the first use" is seen by exactly one call
+_EPOCH = [0]
+_EPOCH_CACHE = {}
+_EPOCH_LOCK = threading.Lock()
+
+
+def _per_epoch(key, mk):
+    with _EPOCH_LOCK:
+        k = (_EPOCH[0], key)
+        if k not in _EPOCH_CACHE:
+            if len(_EPOCH_CACHE) > 200:
+                _EPOCH_CACHE.clear()
+            _EPOCH_CACHE[k] = mk()
+        return _EPOCH_CACHE[k]
+
+
+def new_epoch():
+    with _EPOCH_LOCK:
+        _EPOCH[0] += 1
 _TWO_ROLES = {'sum': Sum((Y, T)), 'flatten': Flatten((Y, T))}
+import collections as _collections  # noqa: E402
+_LAZY_RED = {'merge': Merge(Iter(Y)), 'sum-list': Sum(Iter(Y), init=list), 'sum-counter': Sum(Iter((Y, _collections.Counter)), init=_collections.Counter),
+             'flatten': Flatten(Iter(Y)), 'fold': Fold(Iter(Y), init=list, op=lambda acc, x: (acc.append(x), acc)[1])}
 
 
 def _shared_first(n):
@@ -492,8 +544,11 @@ class IsolationMonitor:
 
 def enumerated(col, rng, mon, n_threads, n_yields, max_schedules, combos, self_schedules=25):
     P = programs(n_yields)
-    isolated = {p['name']: run_program(p) for p in P}
-    again = {p['name']: run_program(p) for p in P}
+    def alone_(p):
+        new_epoch()
+        return run_program(p)
+    isolated = {p['name']: alone_(p) for p in P}
+    again = {p['name']: alone_(p) for p in P}
     # the degenerate schedule - one call after the other, no overlap - with a spec object that other calls (of this or another
     # program, through this or another registry) have used before: same outcome as with a freshly built equal spec object
     for p in P:
